@@ -60,7 +60,10 @@ impl<'a> PrettyPrinter<'a> {
         // NOTE: This is a safe cast. The parentheses for patterns are all optional.
         // For safety, we don't remove parentheses around idents. See `paren-in-key.typ`.
         let expr = parenthesized.expr();
-        let can_omit = (expr.is_literal()
+        // A float like `1.` must keep its parentheses: `(1.).abs()` is not `1..abs()`.
+        let is_dot_ended_float = expr.to_untyped().kind() == SyntaxKind::Float
+            && expr.to_untyped().text().ends_with('.');
+        let can_omit = (expr.is_literal() && !is_dot_ended_float
             || matches!(
                 expr.to_untyped().kind(),
                 SyntaxKind::Array
